@@ -149,21 +149,23 @@ class Journal:
 
     def __init__(self) -> None:
         self._entries: list[JournalEntry] = []
-        self._previous_journal: Journal | None = None
         self._hooks: list[Callable[[JournalEntry], None]] = []
-        self._original_methods: dict[str, Callable] = {}
+        # One (previous journal, original methods) pair per active ``with`` block, so that
+        # entering the same journal again inside its own block does not lose the outer state
+        self._saved_states: list[tuple[Journal | None, dict[str, Callable]]] = []
 
     def __enter__(self) -> Self:
         global _current_journal
-        self._previous_journal = _current_journal
+        previous_journal = _current_journal
         _current_journal = self
-        self._original_methods = _wrappers.wrap_ir_classes(self)
+        self._saved_states.append((previous_journal, _wrappers.wrap_ir_classes(self)))
         return self
 
     def __exit__(self, exc_type, exc_value, exc_tb) -> None:
-        _wrappers.restore_ir_classes(self._original_methods)
+        previous_journal, original_methods = self._saved_states.pop()
+        _wrappers.restore_ir_classes(original_methods)
         global _current_journal
-        _current_journal = self._previous_journal
+        _current_journal = previous_journal
 
     @property
     def entries(self) -> Sequence[JournalEntry]:
